@@ -401,7 +401,7 @@ class World:
         # ---- C17 (runs): repeated evaluation bookkeeping
         det_mode = (self.noise_mode == "none")
         if u is not None:
-            key = u.tobytes()
+            key = (u + 0.0).tobytes()
             n_before = self.called_u.get(key, 0)
             if n_before > 0 and det_mode and self.b is not None and \
                     self.b.optim_state.get("uncertainty_handling_level", 0) == 0:
@@ -431,7 +431,7 @@ class World:
         yobs, sd = self.noise(x, ytrue)
         self.n_valid += 1
         if u is not None:
-            self.called_u[u.tobytes()] = self.called_u.get(u.tobytes(), 0) + 1
+            self.called_u[(u + 0.0).tobytes()] = self.called_u.get((u + 0.0).tobytes(), 0) + 1
         self.calls.append(dict(k=k, x=x, u=u, y=yobs, sd=sd, dur=dur, phase=phase,
                                valid=True, ytrue=ytrue))
         self.ev("target_call", k, x, yobs, sd, dur, phase)
@@ -856,7 +856,7 @@ def _check_filter(w, U, lb, ub, tol_mesh, X_logged, proj, out):
     w.last_filter_rows = {r.tobytes() for r in np.ascontiguousarray(out + 0.0)}
     w.last_filter_phase = phase
     for i in hits:
-        w.filter_passed_logged.add(np.ascontiguousarray(out[i]).tobytes())
+        w.filter_passed_logged.add(np.ascontiguousarray(out[i] + 0.0).tobytes())
     for cls, msg, detail in problems:
         w.violate("C17", cls, msg, phase=phase, proj=proj, **detail)
     if U2.shape[0] > out.shape[0]:
@@ -949,13 +949,13 @@ def _check_training_set(w, g, Xl, Yl, Sl, ref, len_scale, n_min, n_max, optim_st
     # every training pair is a logged pair
     pairs = {}
     for j in range(n_logged):
-        pairs.setdefault(Xl[j].tobytes(), []).append(j)
+        pairs.setdefault((Xl[j] + 0.0).tobytes(), []).append(j)
     specified = Sl is not None and bool(options.get("specify_target_noise"))
     gs2 = None
     if specified and g.s2 is not None:
         gs2 = np.asarray(g.s2, dtype=float).reshape(-1)
     for i in range(n):
-        js = pairs.get(np.ascontiguousarray(gX[i]).tobytes())
+        js = pairs.get(np.ascontiguousarray(gX[i] + 0.0).tobytes())
         if not js:
             w.violate("C15", "train-input-not-logged", "GP training input is not a logged point", i=i, x=gX[i])
             break
